@@ -316,6 +316,29 @@ Proof.
   split; [exists p; repeat split; assumption|]. rewrite <- Hst. exact Hl.
 Qed.
 
+(* ---------- the scatter leader ---------- *)
+(* whenever some target store without an engine label accepts leaders, the store chosen for the leader is a target store
+   without an engine label that accepts leaders (0 = "none" is not chosen then) *)
+Theorem scatter_leader_accepts_leaders stores grp ldr targets l :
+  In l (leader_choices stores grp ldr targets) ->
+  accepting stores (ordinary_targets stores targets) <> [] ->
+  In l (map fst targets) /\ exists s, find_store stores l = Some s /\ s_reject s = false /\ lv_empty (engine_of s) = true.
+Proof.
+  unfold leader_choices. intros H Hne.
+  destruct (accepting stores (ordinary_targets stores targets)) as [|x acc] eqn:E; [contradiction|].
+  apply filter_In in H as [H _]. rewrite <- E in H. unfold accepting in H. apply filter_In in H as [Ho Hr].
+  unfold ordinary_targets in Ho. apply filter_In in Ho as [Hin He].
+  split; [exact Hin|]. destruct (find_store stores l) as [s|]; [|discriminate].
+  exists s. split; [reflexivity|]. split; [apply negb_true_iff; exact Hr|exact He].
+Qed.
+
+(* regression: reject-leader on store 1; targets {1, 2}; leader counters empty: the leader goes to store 2, never to 1
+   (before the fix both were candidates) *)
+Lemma leader_reject_regression :
+  leader_choices [Store 1 SUp false false false false false false false false false true [];
+                  Store 2 SUp false false false false false false false false false false []] 1 [] [(1, Voter); (2, Voter)] = [2].
+Proof. vm_compute. reflexivity. Qed.
+
 (* ---------- a peer move keeps the number of peers of every role and one peer per store ---------- *)
 Lemma flat_map_no_src (ps : list peer) src :
   ~ In src (stores_of ps) -> flat_map (fun q => if p_store q =? src then [] else [q]) ps = ps.
